@@ -25,7 +25,7 @@ ASSUMPTIONS = [
     "probabilities in [0.9, 0.999999]; probability steps in [0.01, 0.2]",
     "promised tail / step probabilities are judged by scipy quad of the model density (1e-6 relative)",
 ]
-REQUIRED_COUNTERS = ["grid_init_postconditions", "grid_refine_postconditions", "tail_probability_checks",
+REQUIRED_COUNTERS = ["grid_init_postconditions", "grid_refine_postconditions", "origin_index_read_in_expressions", "tail_probability_checks",
                      "probability_step_checks", "time_grid_checks"]
 MIN_NONTRIVIAL = {"quick": 60, "thorough": 400}
 THOROUGH_ROUNDS = 20      # the thorough tier runs the generators this many times (different seeds)
@@ -242,6 +242,21 @@ def run_case(case, R, ctx):
                     R.skip("outside-domain: probability-step grid with a massless gap (no probability mid-point)")
                     nref = 0
                     break
+    # reading the origin index in an arithmetic expression leaves the grid as it is (0 stays at the stated origin index)
+    o_before = list(grid.origin_coordinate) if g["dim"] > 1 else [grid.origin_coordinate.value]
+    try:
+        doubled = [2 * grid.origin_coordinate, grid.origin_coordinate * 2, grid.origin_coordinate + (1 if g["dim"] == 1 else [1] * g["dim"]), -grid.origin_coordinate]
+        R.hit("origin_index_read_in_expressions")
+        o_after = list(grid.origin_coordinate) if g["dim"] > 1 else [grid.origin_coordinate.value]
+        d0 = list(doubled[0]) if g["dim"] > 1 else [doubled[0].value]
+        if o_after != o_before or d0 != [2 * v for v in o_before]:
+            R.violation("origin-index-changed-by-reading-it-in-an-expression", f"{label}: origin index {o_before} before, {o_after} after evaluating 2 * origin, origin * 2, "
+                        f"origin + 1, -origin (2 * origin = {d0})", {"grid": g})
+            for kk, pb in contracts.well_formed_problems(grid)[:1]:
+                R.violation("grid-malformed-after-reading-its-origin-index", f"{label}: {pb}", {"grid": g})
+            return
+    except Exception as exc:  # noqa: BLE001
+        R.violation("origin-index-arithmetic-raises", f"{label}: {type(exc).__name__}: {exc}", {"grid": g})
     sizes0 = [len(a) for a in grid.axes]
     holder = grid.origin_coordinate           # an alias taken before the refinements (as samplers do)
     o0 = list(holder) if g["dim"] > 1 else [holder.value]
